@@ -18,6 +18,7 @@ EXPLANATION = (
     "posterior; dynamic calibration uses the whitened residual of the mean-only extrapolation.  Also AbstractLatentCond.bayes_rule_*: "
     "revert then apply to the (flattened) datum."
 )
+TRUSTED_VALUE_PRIMITIVES = ("lstsq_svd",)  # the initial-constraint update of every solver solves with linalg.lstsq_svd
 LEVEL = "other"
 TECHNIQUE = "abstract interpretation over the AST with class-hierarchy analysis; Markov time typestate (phantom time labels); provenance/identity of record fields; value-numbering normal form for time labels"
 LEVEL_TEXT = (
